@@ -185,7 +185,8 @@ EvalW(e, W, env, k) ==
 (* Constraint placement (C04): the declared instances of a path constraint *)
 (* A point is [k, l] : node k (l = 0) or integrator point (k, l).          *)
 (***************************************************************************)
-ConsExprs(c) == IF c.rel = "box" THEN <<c.lo, c.lhs, c.hi>> ELSE <<c.lhs, c.rhs>>
+\* rel "vle": vector-valued  lhs[i] <= rhs[i]  (c.lhs, c.rhs sequences of expressions; c.vscale element-wise scales)
+ConsExprs(c) == IF c.rel = "box" THEN <<c.lo, c.lhs, c.hi>> ELSE IF c.rel = "vle" THEN c.lhs \o c.rhs ELSE <<c.lhs, c.rhs>>
 ConsOffsets(c) == UNION {Offsets(ConsExprs(c)[i]) : i \in 1..Len(ConsExprs(c))}
 
 DeclaredPoints(c, N, M, deg) ==
@@ -231,6 +232,7 @@ Slacks(c, W, pt) ==
        [] c.rel = "ge"  -> <<Div(Sub(ev(c.lhs), ev(c.rhs)), s)>>
        [] c.rel = "eq"  -> <<Div(Sub(ev(c.lhs), ev(c.rhs)), s)>>
        [] c.rel = "box" -> <<Div(Sub(ev(c.lhs), ev(c.lo)), s), Div(Sub(ev(c.hi), ev(c.lhs)), s)>>
+       [] c.rel = "vle" -> Tup([i \in 1..Len(c.lhs) |-> Div(Sub(ev(c.rhs[i]), ev(c.lhs[i])), c.vscale[i])])
 
 RECURSIVE FlatFrom(_, _)
 FlatFrom(ss, i) == IF i > Len(ss) THEN <<>> ELSE ss[i] \o FlatFrom(ss, i + 1)
